@@ -89,14 +89,17 @@ type Revocation struct {
 	Results []result.Result // per chain position (leaf first); missing entries are OK
 	Decor   func(i int, r *result.CertRevocationResult)
 	Err     error
-	Calls   []RevCall
+	// ErrWithResults makes the validator return its result vector together with Err (an error is
+	// an error, whatever comes with it)
+	ErrWithResults bool
+	Calls          []RevCall
 }
 
 func (r *Revocation) answer(chain []*x509.Certificate, t time.Time, iface string) ([]*result.CertRevocationResult, error) {
 	r.mu.Lock()
 	defer r.mu.Unlock()
 	r.Calls = append(r.Calls, RevCall{Chain: append([]*x509.Certificate{}, chain...), SigningTime: t, Interface: iface})
-	if r.Err != nil {
+	if r.Err != nil && !r.ErrWithResults {
 		return nil, r.Err
 	}
 	out := make([]*result.CertRevocationResult, len(chain))
@@ -110,7 +113,7 @@ func (r *Revocation) answer(chain []*x509.Certificate, t time.Time, iface string
 			r.Decor(i, out[i])
 		}
 	}
-	return out, nil
+	return out, r.Err
 }
 
 // ValidateContext implements revocation.Validator.
